@@ -20,18 +20,25 @@ from vt import Infra
 
 AREA = "init"
 # ----------------------------------------------------------------- type domain
-SCALARS = ["int", "char", "long", "float", "double", "ptr", "bool", "short"]
+SCALARS = ["int", "char", "long", "float", "double", "ldouble", "ptr", "bool", "short"]
 ARRAYS = ["i2", "i3", "i0", "i22", "i02", "l3", "p2", "d2", "i8", "i33"]
 CHARS = ["c4", "c0", "c3", "uc4", "h4", "h0", "U4", "w4", "w0", "c24", "c100"]
 STRUCTS = ["sii", "scl", "sfd", "sn", "sn2", "sa", "sa3", "as", "as0", "asa", "sbf", "sbf2", "sub", "sub2",
-           "san", "sau", "sau2", "u", "us", "ub", "su", "au", "sf", "sfs", "sfc", "sc4", "sw", "sp", "s56", "u40"]
+           "san", "sau", "sau2", "u", "us", "ub", "su", "au", "sf", "sfs", "sfc", "sc4", "sw", "sp", "s56", "u40",
+           "spk", "spk2", "apk", "snpk", "sal", "sfl", "ufd", "sc23"]
+# layouts off the natural alignment (packed: pointers = relocations at odd offsets, array stride 19; over-aligned members)
+LAYOUT = ["spk", "spk2", "apk", "snpk", "sal"]
+# the value family: every value class (positive / explicit zero / negated zero / negative) in every position of
+# these types, at <= 3 initializers, one designator
+VALTYPES = ["int", "char", "long", "short", "bool", "float", "double", "ldouble", "ptr", "d2", "p2", "sfd", "sfl", "ufd", "sbf", "sp", "spk", "spk2"]
+VALCLASSES = '{"k","zero","negzero","neg"}'
 ALL_TYPES = SCALARS + ARRAYS + CHARS + STRUCTS
 BIG = ["i8", "i33", "c100", "s56", "u40"]          # 32, 36, 100, 56, 40 bytes: the block zero-fill of automatic objects
-HEAVY = BIG + ["c24", "sw", "sc4", "u", "i02", "su", "sfc", "as0", "au", "sf", "sfs", "asa", "sa3", "sn2", "i22"]   # many spellings: small bound only
+HEAVY = BIG + LAYOUT + ["sc23"] + ["c24", "sw", "sc4", "u", "i02", "su", "sfc", "as0", "au", "sf", "sfs", "asa", "sa3", "sn2", "i22"]   # many spellings: small bound only
 DEEP5 = ["i3", "i0", "sii", "sn", "sa", "as", "san", "sau", "sbf", "sub", "us", "c3"]
 
 CT = dict(int="int", char="char", short="short", long="long", uint="unsigned", bool="_Bool", float="float",
-          double="double", ptr="int *", uchar="unsigned char", c16="unsigned short", c32="unsigned", wchar="int")
+          double="double", ldouble="long double", ptr="int *", uchar="unsigned char", c16="unsigned short", c32="unsigned", wchar="int")
 
 PRELUDE = r'''
 int printf(const char *, ...);
@@ -40,6 +47,7 @@ long c05_clobber(void);            /* harness/c/c05_clobber.c, compiled by gcc: 
 static struct { char c; int m[12]; } G;
 static void P(long v) { printf(" %ld", v); }
 static long PP(int *p) { return p ? (long)((char *)p - (char *)&G.m[0]) : -1; }
+static long FB(double d) { union { double d; long l; } u; u.d = d; return u.l; }   /* the representation: -0.0 differs from 0.0 */
 static void poison(void) { volatile unsigned char b[768]; for (int i = 0; i < 768; i++) b[i] = 0xA5; }
 '''
 
@@ -61,7 +69,7 @@ class Types:
             elif m["n"] == "":
                 out.append("%s { %s };" % ("struct" if self.k(m["t"]) == "st" else "union", self.body(m["t"])))
             else:
-                out.append(self.decl(m["t"], m["n"]) + ";")
+                out.append(("_Alignas(%d) " % m["al"] if m.get("al") else "") + self.decl(m["t"], m["n"]) + ";")
         return " ".join(out)
 
     def typedefs(self, t, seen):
@@ -78,7 +86,8 @@ class Types:
             elif self.k(m["t"]) != "sc":
                 for mm in self.tt[m["t"]]["ms"]:
                     out += self.typedefs(mm["t"], seen)
-        out.append("typedef %s { %s } T_%s;" % ("struct" if d["k"] == "st" else "union", self.body(t), t))
+        out.append("typedef %s%s { %s } T_%s;" % ("struct" if d["k"] == "st" else "union",
+                                                    " __attribute__((%s))" % d["at"] if d.get("at") else "", self.body(t), t))
         return out
 
     def decl(self, t, name):
@@ -90,16 +99,24 @@ class Types:
             return c + name if c.endswith("*") else c + " " + name
         return "T_%s %s" % (t, name)
 
+    def type_at(self, t, path):
+        """the type table entry of the subobject at a (1-based) path of type t"""
+        d = self.tt[t]
+        for i in path:
+            d = self.tt[d["e"] if d["k"] == "arr" else d["ms"][i - 1]["t"]]
+        return d
+
     def has_flex(self, t):
         d = self.tt[t]
         return d["k"] == "st" and self.k(d["ms"][-1]["t"]) == "arr" and self.tt[d["ms"][-1]["t"]]["n"] == 0
 
-    def leaves(self, t, val, path=(), expr=""):
+    def leaves(self, t, val, path=(), expr="", w=0):
         """[(path, access expression, scalar kind)] of the scalars that can be read: named members only,
-        the active member of a union, elements 0..bound-1 of an array of unknown bound"""
+        the active member of a union, elements 0..bound-1 of an array of unknown bound; a bit-field's kind
+        is written kind:width"""
         d = self.tt[t]
         if d["k"] == "sc":
-            return [(path, expr, d["c"])]
+            return [(path, expr, d["c"] + (":%d" % w if w else ""))]
         out = []
         if d["k"] == "arr":
             n = d["n"]
@@ -120,41 +137,91 @@ class Types:
             if m["n"] == "" and (m["w"] > 0 or self.k(m["t"]) == "sc"):
                 continue                                   # unnamed bit-field: not an object that can be named
             e = expr if m["n"] == "" else "%s.%s" % (expr, m["n"])
-            out += self.leaves(m["t"], val, path + (i + 1,), e)
+            out += self.leaves(m["t"], val, path + (i + 1,), e, m["w"])
         return out
 
 
 STR = {"": "abcd", "u8": "abcd", "u": "aβcd", "U": "aβcd", "L": "aβcd"}
 
 
-def vtext(kind, v):
-    if kind == "float":
-        return "%d.5f" % v
-    if kind == "double":
-        return "%d.25" % v
+FLOATS = dict(float=(0.5, "f"), double=(0.25, ""), ldouble=(0.25, "L"))
+FORMS = ["plain", "paren", "cast", "inner"]
+INTBITS = dict(char=8, short=16, int=32, long=64, wchar=32)             # signed
+UINTBITS = dict(uchar=8, c16=16, c32=32, uint=32)
+
+
+def decode(code):
+    """Init.tla VCode: (class index 0..3 = k / zero / negzero / neg, ordinal k)"""
+    return code // 10000, code % 10000
+
+
+def vtext(kind, v, form="plain"):
+    """C spelling of the initializer expression with value code v for a scalar of the given kind.  form: plain,
+    paren = (x), cast = converted from a literal of ANOTHER type of the same value, inner = -(literal) for the
+    negated classes"""
+    cls, k = decode(v)
+    neg = cls >= 2
+    if kind in FLOATS:
+        frac, suf = FLOATS[kind]
+        if form == "cast":                         # e.g. (double)-0.0f, (float)-1.5, (long double)-0.0
+            suf = "f" if kind != "float" else ""
+        mag = ("%d%s" % (k, str(frac)[1:]) if cls in (0, 3) else "0.0") + suf
+        ctype = CT[kind]
+    elif kind == "ptr":
+        ctype = "int *"
+        if cls == 0:
+            return {"plain": "&G.m[%d] + 1", "paren": "(&G.m[%d] + 1)", "cast": "(int *)(&G.m[%d] + 1)", "inner": "G.m + %d + 1"}[form] % k
+        if cls == 3:
+            return {"plain": "&G.m[%d] - 1", "paren": "(&G.m[%d] - 1)", "cast": "(int *)(&G.m[%d] - 1)", "inner": "G.m + %d - 1"}[form] % k
+        x = "0" if cls == 1 else "(void *)0"
+        return {"plain": x, "paren": "(%s)" % x, "cast": "(int *)%s" % x, "inner": x}[form]
+    else:
+        mag = "%d" % (k if cls in (0, 3) else 0)
+        ctype = CT[kind]
+    if form == "inner":
+        return "-(%s)" % mag if neg else "(%s)" % mag
+    x = ("-" if neg else "") + mag
+    if form == "paren":
+        return "(%s)" % x
+    if form == "cast":
+        return "(%s)%s" % (ctype, x)
+    return x
+
+
+def leaf_value(kind, v):
+    """what the dump prints for a scalar of `kind` (kind:width for a bit-field) initialised with value code v:
+    the value converted as if by assignment (6.7.9p11); floating members are dumped as the bits of the value
+    converted to double, pointers as byte offset from &G.m[0] (-1 = null)"""
+    import struct
+    cls, k = decode(v)
+    kind, _, w = kind.partition(":")
+    w = int(w) if w else 0
+    if kind in FLOATS:
+        x = (k + FLOATS[kind][0]) if cls in (0, 3) else 0.0
+        if cls >= 2:
+            x = -x
+        return struct.unpack("<q", struct.pack("<d", x))[0]
     if kind == "ptr":
-        return "&G.m[%d] + 1" % v
-    return str(v)
+        return 4 * k + 4 if cls == 0 else 4 * k - 4 if cls == 3 else -1
+    x = k if cls == 0 else -k if cls == 3 else 0
+    if kind == "bool":
+        return 1 if x else 0
+    if kind in UINTBITS:
+        return x % (1 << (w or UINTBITS[kind]))
+    bits = w or INTBITS[kind]
+    x %= 1 << bits
+    return x - (1 << bits) if x >> (bits - 1) else x
 
 
 def expect_leaf(kind, val, path):
     if path not in val:
         return -1 if kind == "ptr" else 0
-    v = val[path]
-    if kind == "float":
-        return 4 * v + 2
-    if kind == "double":
-        return 4 * v + 1
-    if kind == "ptr":
-        return 4 * v + 4
-    if kind == "bool":
-        return 1 if v else 0
-    return v
+    return leaf_value(kind, val[path])
 
 
 def dump_expr(kind, e):
-    if kind in ("float", "double"):
-        return "P((long)(%s * 4));" % e
+    if kind in FLOATS:
+        return "P(FB(%s));" % e
     if kind == "ptr":
         return "P(PP(%s));" % e
     return "P((long)%s);" % e
@@ -186,7 +253,7 @@ def init_text(toks):
             out.append("{")
             comma = False
         elif a == "V":
-            out.append(vtext(t["c"], t["v"]))
+            out.append(vtext(t["c"], t["v"], t.get("form", "plain")))
             comma = True
         elif a == "S":
             out.append('%s"%s"' % (t["pre"], STR[t["pre"]][:t["l"]]))
@@ -197,8 +264,14 @@ def init_text(toks):
 class Case:
     __slots__ = ("ty", "toks", "val", "text", "key", "dis")
 
-    def __init__(self, b):
+    def __init__(self, b, forms=False):
         self.ty, self.toks = b["ty"], b["toks"]
+        if forms:            # the value family: the spelling of every expression rotates (a function of the case alone)
+            import hashlib
+            base = init_text(self.toks)
+            for j, t in enumerate(self.toks):
+                if t["a"] == "V" and "form" not in t:
+                    t["form"] = FORMS[int(hashlib.sha1(("%s|%s|%d" % (self.ty, base, j)).encode()).hexdigest()[:8], 16) % len(FORMS)]
         self.val = {tuple(e["p"]): e["v"] for e in b["val"]}
         self.dis = {}                    # path -> values given earlier and discarded by a later `{`/string (p19)
         for e in b.get("dis") or []:
@@ -348,7 +421,7 @@ def run_batches(ctx, compiler, tree, T, cases, tag, per=300, limit=None):
 
 # ---------------------------------------------------------------- classification
 FLEXF = {"flex-indexed", "flex-elided-then-designator", "flex-initialised-twice"}
-PRIORITY = ["flex-indexed", "flex-elided-then-designator", "flex-initialised-twice", "braced-string",
+PRIORITY = ["flex-indexed", "flex-elided-then-designator", "flex-initialised-twice", "string-elided-array", "braced-string",
             "range-nested", "range", "nested-designator", "unnamed-bitfield", "bitfield", "union", "anonymous-member",
             "flex", "string", "unknown-bound", "trailing-comma", "plain"]
 
@@ -359,6 +432,7 @@ def features(T, c):
     toks, tt = c.toks, T.tt
     flex = len(tt[c.ty]["ms"]) if T.has_flex(c.ty) else -1
     run, depth, flex_items, flex_elided_at, prev_flex = 0, 0, 0, None, False
+    opened = []                                  # paths of the subobjects whose `{` is open
     for j, t in enumerate(toks):
         a = t["a"]
         if a in "FIR":
@@ -384,12 +458,19 @@ def features(T, c):
             f.add("trailing-comma")
         elif a == "O":
             depth += 1
+            opened.append(t["p"])
         elif a == "C":
             depth -= 1
+            opened.pop()
         elif a == "S":
             f.add("string")
             if j > 0 and toks[j - 1]["a"] == "O":
                 f.add("braced-string")
+            # the character array is an element of an array that has no braces of its own and was not indexed by a
+            # designator: the literal reaches it by brace elision through that array (6.7.9p20)
+            par = t["p"][:-1]
+            if t["p"] and par not in opened and (j == 0 or toks[j - 1]["a"] not in "IR") and T.type_at(c.ty, par)["k"] == "arr":
+                f.add("string-elided-array")
         if a in "VS" and depth == 1 and flex > 0 and t["p"][:1] == [flex]:
             flex_elided_at = j
     if flex_items >= 2:
@@ -434,8 +515,8 @@ def sections(line):
 def only_survivors(T, c, exp, got):
     """D35, exactly: a `{`/string re-initialised a subobject that already had initializers, both objects
     agree with each other, and every leaf that differs from the specification holds a value that was
-    given for that very leaf earlier and discarded by the later `{`/string (the specification has the
-    implicit zero, or a later value, there)."""
+    given for that very leaf earlier and discarded by the later `{`/string, and the specification has the
+    implicit zero there (no later initializer writes the leaf)."""
     if not c.dis or got is None:
         return False
     e, g = sections(exp), sections(got)
@@ -450,7 +531,9 @@ def only_survivors(T, c, exp, got):
     for (path, _, kind), ev, gv in zip(lv, e["S"], g["S"]):
         if ev != gv:
             diff = True
-            if gv not in {str(expect_leaf(kind, {path: v}, path)) for v in c.dis.get(path, ())}:
+            # ... and the later `{`/string itself gives that leaf nothing: it is absent from the value map (the implicit
+            # zero).  A leaf the later initializer DOES write (e.g. the NUL of the shorter string) must hold that value.
+            if path in c.val or gv not in {str(expect_leaf(kind, {path: v}, path)) for v in c.dis.get(path, ())}:
                 return False
     return diff
 
@@ -533,10 +616,10 @@ def gcc_validate(ctx, T, cases, tag):
 
 
 # ------------------------------------------------------------------------- run
-def generate(ctx, types, out, **consts):
+def generate(ctx, types, out, workers=4, cfg=None, **consts):
     tset = "{" + ",".join('"%s"' % t for t in types) + "}"
-    cfg = ctx.cfg(AREA, "Init_gen.cfg", Types=tset, **consts)
-    g = ctx.tlc(AREA, "Init", cfg, env=dict(OUT=out), workers=4, heap="6g", timeout=3000)
+    cfg = cfg or ctx.cfg(AREA, "Init_gen.cfg", Types=tset, **consts)
+    g = ctx.tlc(AREA, "Init", cfg, env=dict(OUT=out), workers=workers, heap="6g", timeout=3000)
     if not g.ok:
         p = ctx.replay_dir("tlc-Init-%s" % "-".join(types)[:40])
         open(p + "/counterexample.txt", "w").write(g.trace_text())
@@ -545,13 +628,13 @@ def generate(ctx, types, out, **consts):
     return g
 
 
-def load(out):
+def load(out, forms=False):
     tt, cases = None, []
     for b in vt.read_ndjson(out):
         if "tt" in b:
             tt = b["tt"]
         else:
-            cases.append(Case(b))
+            cases.append(Case(b, forms))
     if tt is None:
         raise Infra("generator wrote no type table")
     cases.sort(key=lambda c: c.key)                     # TLC's worker interleaving must not matter
@@ -582,15 +665,27 @@ def run(ctx):
     #  switch, D39, needs four initializers to show)
     deep = sorted(set(vt.subsample(light, ctx.seed, 5)) | {"us"}) if q else DEEP5
     out2 = os.path.join(ctx.scratch, "beh2.ndjson")
+    # the value family: every value class in every position of the types of VALTYPES (the same for every seed);
+    # generated next to the deeper slice (2 + 2 workers)
+    out3 = os.path.join(ctx.scratch, "beh3.ndjson")
+    vconsts = dict(MaxItems=3, MaxDesig=1, MaxTC=0, Ranges=False, ValClasses=VALCLASSES)
     if q:
-        generate(ctx, deep, out2, MaxItems=4, MaxDesig=2)
+        import concurrent.futures
+        vcfg = ctx.cfg(AREA, "Init_gen.cfg", Types="{" + ",".join('"%s"' % t for t in VALTYPES) + "}", **vconsts)
+        with concurrent.futures.ThreadPoolExecutor(1) as ex:
+            fut = ex.submit(generate, ctx, VALTYPES, out3, workers=2, cfg=vcfg)
+            generate(ctx, deep, out2, workers=2, MaxItems=4, MaxDesig=2)
+            fut.result()
     else:
         generate(ctx, deep, out2, MaxItems=5, MaxDesig=2, MaxTC=0, Ranges=False)
+        generate(ctx, VALTYPES, out3, **vconsts)
     ctx.phase("tlc")
     T, c1 = load(out)
     _, c2 = load(out2)
+    _, c3 = load(out3, forms=True)
+    ctx.cov["value_family_cases"] = len(c3)
     seen, cases = set(), []
-    for c in c1 + c2:
+    for c in c1 + c2 + c3:
         if c.key not in seen:
             seen.add(c.key)
             cases.append(c)
@@ -602,9 +697,12 @@ def run(ctx):
     # mostly rejected by the compiler; a seed-selected tenth of them is replayed in small batches so that
     # they cannot take the other cases of a batch with them
     prone = [c for c in cases if features(T, c) & FLEXF]
-    pk = set(c.key for c in prone)
+    # likewise the cases in which a string literal reaches a character array by brace elision through an enclosing
+    # array (rejected by a tree without proposed/C11/fix-3): all of them, in small batches
+    elided = [c for c in cases if "string-elided-array" in features(T, c) and not features(T, c) & FLEXF]
+    pk = set(c.key for c in prone + elided)
     sel = [c for c in cases if c.key not in pk]
-    prone = vt.subsample(prone, ctx.seed, 10 if q else 4)
+    prone = vt.subsample(prone, ctx.seed, 10 if q else 4) + elided
     mid = sel[len(sel) // 2]
     ctx.sample(dict(kind="initializer", c_static="static %s = %s;" % (T.decl(mid.ty, "s"), mid.text),
                     c_automatic="%s = %s;" % (T.decl(mid.ty, "a"), mid.text), expected=expect_line(T, 0, mid)))
